@@ -1117,6 +1117,9 @@ class Facts:
                         for x in (t.elts if isinstance(t, ast.Tuple)
                                   else [t])):
                     continue             # a named temporary
+                if isinstance(st, (ast.FunctionDef, ast.Import,
+                                   ast.ImportFrom)):
+                    continue             # a local helper / import
                 ok = isinstance(st, ast.If) and not st.orelse and len(
                     st.body) == 1 and isinstance(st.body[0], ast.Return) \
                     and isinstance(st.body[0].value, ast.Constant) and \
